@@ -247,7 +247,7 @@ func UseSites() []UseSite {
 		// a second imported package with unannotated items of the same names
 		{Tag: "namesake e.Helper()", Stmt: "e.Helper()", Kind: UKNone, TONL: true, Core: true, OnlyImporter: true},
 		{Tag: "namesake e.Mock{}", Stmt: "_ = e.Mock{}", Kind: UKNone, TONL: true, OnlyImporter: true},
-		{Tag: "namesake var e.Mock2", Stmt: "var $v e.Mock2; _ = $v", Kind: UKNone, TONL: true, OnlyImporter: true},
+		{Tag: "namesake var e.Mock2 (restricted in e)", Stmt: "var $v e.Mock2; _ = $v", Kind: UKType, Type: "eMock2", TONL: true, OnlyImporter: true, Core: true},
 		{Tag: "namesake e.S{}.Reset()", Stmt: "e.S{}.Reset()", Kind: UKNone, TONL: true, OnlyImporter: true},
 		// a local variable that has the NAME of the import: d.Reset() / d.Helper() are then calls on a value of an unannotated type
 		{Tag: "shadow import name d := e.S{}", Stmt: "func() { d := e.S{}; d.Reset(); dd := &d; dd.ResetP() }()", Kind: UKNone, TONL: true, OnlyImporter: true},
@@ -807,6 +807,8 @@ func HelperArg(x any) int { return 0 }
 
 type Mock struct{ A int }
 
+// Mock2 has the NAME of d's second annotated type and is restricted itself (always, independently of the mix).
+// @packageonly nowhere
 type Mock2 struct{ A int }
 
 type S struct{ K int }
@@ -866,6 +868,16 @@ func ExpectUse(fam string, s *UseSpec, rd *UseRendered) [][]string {
 			refs = []UseRef{{Kind: si.Kind, Type: si.Type, Tag: si.Tag}}
 		}
 		for _, ref := range refs {
+			if ref.Type == "eMock2" {
+				// e's own Mock2: @packageonly nowhere, whatever the mix says about d's items; never @testonly
+				if fam == "PKGO" {
+					if k := si.File + "|eMock2"; !seen[k] {
+						seen[k] = true
+						exp[i] = append(exp[i], "PKGO01")
+					}
+				}
+				continue
+			}
 			if s.Mix.Skip&itemOf(ref.Kind, ref.Type, ref.Tag) != 0 {
 				continue // the item carries no annotation
 			}
